@@ -97,6 +97,13 @@ class JaqalLexer(Lexer):
         token.value = int(token.value[1:-1], base=2)
         return token
 
+    def error(self, token):
+        """Standard callback by the lexer for illegal characters."""
+        column = token.index - self.text.rfind("\n", 0, token.index)
+        raise JaqalParseError(
+            "<string>", self.lineno, column, f"Illegal character {token.value[0]!r}"
+        )
+
 
 class JaqalParser(Parser):
     """Parse Jaqal into core types."""
